@@ -24,6 +24,9 @@ pub enum ROp {
     NthWrong(u8),
     /// create a typed iterator of another type and take one item (a type-mismatch error)
     IterWrong,
+    /// create an iterator and call `Iterator::nth(j)` once (what `skip` and `step_by` call):
+    /// j items are passed over, the next one is returned
+    IterNth(u8),
     Seek(u8),
     Count,
 }
@@ -208,6 +211,22 @@ fn apply(r: &mut AnyReader, op: ROp, n: usize) -> Result<Obs, PanicInfo> {
             }
             Obs::Items(items, ended)
         }
+        (AnyReader::Shp(r), ROp::IterNth(j)) => {
+            let mut it = r.iter_shapes();
+            match it.nth(j as usize) {
+                None => Obs::Items(vec![], true),
+                Some(Ok(s)) => Obs::Items(vec![Ok((capture(&s), None))], false),
+                Some(Err(e)) => Obs::Items(vec![Err(classify(&e))], false),
+            }
+        }
+        (AnyReader::Full(r), ROp::IterNth(j)) => {
+            let mut it = r.iter_shapes_and_records();
+            match it.nth(j as usize) {
+                None => Obs::Items(vec![], true),
+                Some(Ok((s, rec))) => Obs::Items(vec![Ok((capture(&s), row_idx(&rec)))], false),
+                Some(Err(e)) => Obs::Items(vec![Err(classify(&e))], false),
+            }
+        }
         (AnyReader::Shp(r), ROp::IterWrong) => {
             let mut it = r.iter_shapes_as::<shapefile::Multipatch>();
             match it.next() {
@@ -245,6 +264,7 @@ fn op_name(op: ROp) -> String {
         ROp::Nth(i) => format!("nth({})", i),
         ROp::NthWrong(i) => format!("nth-as-other-type({})", i),
         ROp::IterWrong => "iter-as-other-type-1".into(),
+        ROp::IterNth(j) => format!("iter-nth({})", j),
         ROp::Seek(k) => format!("seek({})", k),
         ROp::Count => "count".into(),
     }
@@ -261,6 +281,7 @@ fn history_site(ops: &[ROp], upto: usize) -> String {
         ROp::Nth(_) => "nth",
         ROp::NthWrong(_) => "nthwrong",
         ROp::IterWrong => "iterwrong",
+        ROp::IterNth(_) => "iternth",
         ROp::Seek(_) => "seek",
         ROp::Count => "count",
     };
@@ -387,8 +408,46 @@ pub fn run_history(scn: &HrScn, f: &ValidFile, dbf: &[u8], ctx: &mut Ctx) {
                     unsynced = false;
                 }
             }
-            (ROp::Iter(_), Obs::Items(..)) if unsynced => {
+            (ROp::Iter(_), Obs::Items(..)) | (ROp::IterNth(_), Obs::Items(..)) if unsynced => {
                 ctx.stats.reach("iteration-not-judged-after-failed-typed-iteration");
+            }
+            (ROp::IterNth(j), Obs::Items(items, ended)) => {
+                // the item after j passed-over ones, or the end if fewer than j + 1 were left
+                let j = *j as usize;
+                let mut next: BTreeSet<usize> = BTreeSet::new();
+                for &p in cand.iter() {
+                    let avail = n.saturating_sub(p);
+                    if avail > j {
+                        let ok = !ended
+                            && matches!(items.first(), Some(Ok((g, row))) if diff_read(&f.expected[p + j], g, p + j, &never).is_none() && (scn.kind != RKind::Full || *row == Some((p + j) as i64)));
+                        if ok {
+                            next.insert(p + j + 1);
+                            next.insert(0);
+                        }
+                    } else if ended && items.is_empty() {
+                        if avail > 0 {
+                            next.insert(n);
+                            next.insert(0);
+                        } else {
+                            next.insert(p);
+                        }
+                    }
+                }
+                if next.is_empty() {
+                    let shown: Vec<String> = items
+                        .iter()
+                        .map(|it| match it {
+                            Ok((g, row)) => {
+                                let which = f.expected.iter().position(|e| diff_read(e, g, 0, &never).is_none());
+                                format!("record {:?}{}", which, row.map(|r| format!("/row {}", r)).unwrap_or_default())
+                            }
+                            Err(e) => format!("Err({:?})", e),
+                        })
+                        .collect();
+                    ctx.fail("C15", "iteration-sequence", site, format!("history {} ({:?}, {} records): call {} ({}) returned [{}]{}; allowed start positions were {:?}", hist, scn.kind, n, oi, op_name(*op), shown.join(", "), if ended { " (the end)" } else { "" }, cand));
+                    return;
+                }
+                cand = next;
             }
             (ROp::Iter(j), Obs::Items(items, ended)) => {
                 let want = if *j == 255 { n + 3 } else { *j as usize };
@@ -470,6 +529,7 @@ pub fn alphabet(n: usize) -> Vec<ROp> {
     a.push(ROp::NthWrong(0));
     a.push(ROp::NthWrong(1));
     a.push(ROp::IterWrong);
+    a.push(ROp::IterNth(1));
     for k in 0..=n {
         a.push(ROp::Seek(k as u8));
     }
@@ -497,10 +557,10 @@ const CONFIGS: [(RKind, bool, u8, usize); 16] = [
     (RKind::ShpIndex, true, 1, 4),
     (RKind::Full, false, 0, 4),
 ];
-const MAX_ALPHABET: usize = 18;
+const MAX_ALPHABET: usize = 19;
 
 /// Sweep unit: (configuration, first letter). All histories up to `max_len` starting with that
-/// letter (for the 4-record configurations one call less, their alphabet has 17 letters).
+/// letter (for the 4-record configurations one call less, their alphabet has 19 letters).
 pub fn sweep_unit(unit: u64, max_len: usize, ctx: &mut Ctx, ctl: &mut UnitCtl) {
     let cfg = (unit as usize) / MAX_ALPHABET;
     let (kind, varied, layout, n) = CONFIGS[cfg % CONFIGS.len()];
